@@ -216,10 +216,17 @@ class RefModel:
             if solver == "euler":
                 y = {p: y[p] + dt * f1[p][0] for p in sp}
             elif solver == "heun":
-                if delayed:
-                    raise HarnessError("reference Heun with discrete delays is not defined")
                 yp = {p: y[p] + dt * f1[p][0] for p in sp}
-                f2 = self.vf(yp, params, t=k, edge_src=None, ext=ext)
+                es2 = None
+                if delayed:
+                    # the corrector stage looks one step ahead: a delay of D >= 2 steps reads the source value of step
+                    # k+1-D, which is an already recorded one
+                    def es2(ei, value, k=k):
+                        if ei in delayed:
+                            j = k + 1 - delayed[ei]
+                            return (hist_src[ei][j], abs(hist_src[ei][j])) if j >= 0 else (0.0, 0.0)
+                        return value(self.edges[ei]["s"])
+                f2 = self.vf(yp, params, t=k, edge_src=es2, ext=ext)
                 y = {p: y[p] + 0.5 * dt * (f1[p][0] + f2[p][0]) for p in sp}
             else:
                 raise HarnessError(solver)
